@@ -34,6 +34,8 @@ tests  : (labelled measured tests, not theorems) scale-optimal normalised stress
 """
 import json
 import math
+import os
+import shutil
 import threading
 from fractions import Fraction
 
@@ -1201,12 +1203,28 @@ def corpus_cases(ctx):
     return out
 
 
+def build_private(ctx, name, defines):
+    """vlib's shared binary cache keeps the three newest binaries per name; a concurrent run of this check against another
+    tree (coordinator, try_patch) may evict ours while we still use it: run from a copy in our own scratch directory"""
+    last = None
+    for _ in range(3):
+        exe = ctx.cpp("harness/c19.cpp", name=name, defines=defines)
+        dst = os.path.join(ctx.build, name + ".exe")
+        try:
+            shutil.copy2(exe, dst + ".tmp")
+            os.replace(dst + ".tmp", dst)
+            return dst
+        except OSError as ex:          # evicted between the build and the copy: build again
+            last = ex
+    raise vlib.BuildError("harness binary vanished from the shared cache three times: %s" % last)
+
+
 def build_all(ctx, want_plain=True):
     box = {}
 
     def plain():
         try:
-            box["plain"] = ctx.cpp("harness/c19.cpp", name="c19_plain", defines=["C19_PLAIN"])
+            box["plain"] = build_private(ctx, "c19_plain", ["C19_PLAIN"])
         except Exception as ex:          # reported by the main thread
             box["plain_err"] = ex
     th = None
@@ -1214,7 +1232,7 @@ def build_all(ctx, want_plain=True):
         th = threading.Thread(target=plain)
         th.start()
     try:
-        exe = ctx.cpp("harness/c19.cpp")
+        exe = build_private(ctx, "c19", [])
     finally:
         if th:
             th.join()
